@@ -120,6 +120,8 @@ def make_pre_instance(rng, m):
 def make_case(rng, i):
     if i % 5 == 4:
         return make_near_tie_case(rng, i)
+    if i % 14 == 8:
+        return make_deep_negative_softmax_case(rng, i)
     c = make_regular_case(rng, i, force_soft=(i % 14 == 5))
     if i % 7 == 5:
         # scaled family: every real magnitude (rewards, initial values, softmax temperature) is the model's times
@@ -130,13 +132,36 @@ def make_case(rng, i):
         # colliding-hash labels: distinct state / action labels with equal hash(); policy is queried at every state
         c["rep"] = dict(HASH_REPS[rng.randrange(len(HASH_REPS))])
     elif i % 7 == 2:
-        # reuse family: same learner object trained twice - on another MDP over the same labels, or on the same MDP
-        pre = make_pre_instance(rng, c["m"]) if rng.random() < 0.6 else c["m"]
-        if pre is not None:
-            c["pre"] = pre
-            if c["rep"]["rep"] == "matrices" and not (gen.ghost_closed(pre) and gen.ghost_closed(c["m"])):
-                c["rep"]["explicit_list"] = True
+        # reuse family: same learner object trained twice - on another MDP over the same labels, or on the same MDP.
+        # "pre": the judged run is the second call.  "post": the judged run is the FIRST call, but its q_values and
+        # policy are only read after a later train_on of the same learner object on another MDP.
+        other = make_pre_instance(rng, c["m"])
+        if rng.random() < 0.45 and other is not None:
+            c["post"] = other
+        else:
+            other = other if (rng.random() < 0.6 and other is not None) else c["m"]
+            c["pre"] = other
+        if c["rep"]["rep"] == "matrices" and not (gen.ghost_closed(other) and gen.ghost_closed(c["m"])):
+            c["rep"]["explicit_list"] = True
     return c
+
+
+def make_deep_negative_softmax_case(rng, i):
+    """Expected SARSA, softmax temperature 1, all initial values -742, undiscounted, rewards in {0, 1}: every
+    Q-value of a successor row that has not yet seen an absorbing transition satisfies Q / temp in [-742, -730],
+    where exp(Q / temp) is subnormal (a few ulps) although the softmax itself is perfectly ordinary (gaps ~ 1).
+    Rewards >= 0 keep every value >= -742, so msdm's own unshifted sampler never sees an all-zero weight row."""
+    m = gen.rand_mdp(rng, n_na=rng.choice([2, 3, 3]), n_abs=1, K=2, PD=2, GN=1, GD=1, rewards=(0, 1, 1), ID=2,
+                     force_progress=True, init_on_abs=0.0, uniform_actions=rng.random() < 0.7)
+    AN, AD = rng.choice([(1, 2), (1, 4), (1, 1)])
+    EN, ED = rng.choice([(0, 1), (1, 4), (1, 2)])
+    cfg = dict(alg="ESARSA", AN=AN, AD=AD, EN=EN, ED=ED, temp=1.0, q0kind="const",
+               q0=[[-2968] * m["K"] for _ in range(m["N"])], episodes=rng.randint(2, 5),
+               seed=rng.randrange(10 ** 6), gseed=rng.randrange(10 ** 6), intq=rng.random() < 0.5)
+    rep = dict(REPS[rng.randrange(len(REPS))])
+    if rep["rep"] == "matrices" and not rep["explicit_list"] and not gen.ghost_closed(m):
+        rep["explicit_list"] = True
+    return {"m": m, "cfg": cfg, "rep": rep, "deepneg": 1}
 
 
 def make_regular_case(rng, i, force_soft=False):
@@ -446,6 +471,23 @@ def run_real(case, max_steps=MAXSTEPS):
     if not isinstance(res.event_listener_results, list):
         raise RuntimeError("C10: result.event_listener_results is not what the listener's results() returned")
     rec["ev"] = list(res.event_listener_results)
+    if case.get("post"):
+        # "post" reuse: the same learner object is trained again on another MDP over the same labels BEFORE the first
+        # result's q_values and policy are read; the first result must still be the first run's
+        post = build_any(case["post"], rep, digest(case["m"]))
+        assert post.slabel == b.slabel and post.alabel == b.alabel
+        if sigma != 1.0:
+            base_reward_q = post.mdp.reward
+            post.mdp.reward = lambda s, a, ns: base_reward_q(s, a, ns) * sigma
+        rec["post"] = 1
+        try:
+            learner.train_on(post.mdp)
+        except _Stop:
+            if "recorder_error" in st:
+                raise RuntimeError("C10 recorder could not read the listener's local variables: " + st["recorder_error"])
+        except Exception as e:                              # noqa: BLE001
+            return {"error": f"{type(e).__name__}: {e}"[:300], "call": 2}
+        rec["ev"] = list(res.event_listener_results)       # re-read: still the first run's experience
     # ---- returned table, read BEFORE the policy is queried (querying materialises rows of the lazy table)
     for s_lab, row in list(dict.items(res.q_values)):
         s = sidx(s_lab)
@@ -472,7 +514,11 @@ def run_real(case, max_steps=MAXSTEPS):
     for s in range(N):
         if rep["rep"] == "matrices" and s not in listed:
             continue
-        d = res.policy.action_dist(b.slabel[s])
+        try:
+            d = res.policy.action_dist(b.slabel[s])
+        except Exception as e:                              # noqa: BLE001 - the returned policy is undefined at a state
+            rec.setdefault("polerr", []).append([s, f"{type(e).__name__}: {e}"[:200]])
+            continue
         rec["polq"][s] = 1
         for a_lab in d.support:
             a = aidx(a_lab)
@@ -618,12 +664,21 @@ def judge(ctx, cases, recs):
             if rec.get("call") == 2:
                 sig += "/second-call-of-reused-learner"
                 what += " [second train_on call of one learner object, first call on an MDP with the same labels]"
+            if rec.get("post"):
+                sig += "/first-result-read-after-later-train_on"
+                what += " [result of the first train_on call, read after the same learner object was trained again]"
             ctx.violation(sig, what, {"case": c, "clause": f["c"], "tlc": f})
+        for s_, msg in rec.get("polerr", [])[:1]:
+            sig = f"C10:{ALG_CLASS[alg]}._create_policy:policy-query-raised-{msg.split(':')[0]}"
+            sig += "/second-call-of-reused-learner" if rec.get("call") == 2 else ""
+            sig += "/first-result-read-after-later-train_on" if rec.get("post") else ""
+            ctx.violation(sig, f"{ALG_CLASS[alg]}: the returned policy raised at state {s_} of the trained MDP: {msg}",
+                          {"case": c, "clause": "policy-query-raised"})
         for fl in sorted(v["flags"]):
             ctx.drift(fl, {"alg": alg, "case": digest(c)})
         if rec.get("extra_rows"):
             ctx.drift("q_values/policy mention labels outside the MDP", {"alg": alg, "case": digest(c)})
-        if v["phase"] == "done" and not v["fails"]:
+        if v["phase"] == "done" and not v["fails"] and not rec.get("polerr"):
             ctx.validated += 1
             boot = any(e["k"] == "step" and not rec["abs"][e["ns"] - 1] for e in rec["ev"])
             if nsteps >= 3 and boot and rec["AN"] > 0:
@@ -635,6 +690,10 @@ def judge(ctx, cases, recs):
             ctx.count("runs_with_colliding_hash_labels")
         if rec.get("call") == 2:
             ctx.count("reused_learner_second_calls")
+        if rec.get("post"):
+            ctx.count("first_results_read_after_later_training")
+        if c.get("deepneg"):
+            ctx.count("softmax_runs_with_subnormal_unshifted_weights")
         if rec.get("scale_exp"):
             ctx.count("scaled_family_runs")
             if loose and rec["scale_exp"] == -7:
@@ -754,6 +813,10 @@ def run(ctx):
         "reuse family (call = 2): one learner object is trained on MDP A (same labels, other absorbing set / action "
         "sets; or the very same MDP) and then on MDP B; the second call is judged against B exactly like a first call - "
         "the statement has no freshness precondition on the learner",
+        "post reuse (post = 1): the first result's experience, q_values and policy are read only after the same learner "
+        "object was trained again on another MDP over the same labels; they must still describe the first run",
+        "deep-negative softmax family: expected SARSA, temperature 1, initial values -742, gamma 1, rewards in {0,1}: "
+        "Q/temp in [-742,-730] where exp(Q/temp) is subnormal; the recorder's weights are max-shifted (exact to 1e-16)",
         "the experience that is judged is result.event_listener_results (what msdm reports with the returned Q-table), "
         "produced by a listener that keeps its state on the instance like the library's EpisodeRewardEventListener",
         "boundedness interval includes 0 (the fixed value of absorbing states); undiscounted: after n updates "
@@ -777,7 +840,7 @@ def run(ctx):
     for k in range(0, len(cases), chunk):
         part = cases[k:k + chunk]
         recs = [safe_run(c) for c in part]
-        ctx.evaluations += len(part) + sum(1 for c in part if c.get("pre"))     # reuse family: two trainings
+        ctx.evaluations += len(part) + sum(1 for c in part if c.get("pre") or c.get("post"))     # reuse family: two trainings
         judge(ctx, part, recs)
 
 
